@@ -2,47 +2,49 @@
    Print Assumptions only. The pins in tools/pins/C02.v re-check the statements. *)
 From Coq Require Import List NArith Bool.
 From V.gen Require Consts.
-From V.C02 Require Import Model Proofs.
+From V.gen Require NoiseKinds.
+From V.C02 Require Import Model Proofs Tamper Duplex Buffer Kinds.
 Import ListNotations.
 Open Scope N_scope.
 
 (* Reader, any wire (any tampering, truncation, garbage) and any carrier behaviour (chunking,
-   Pending, zero-length reads, I/O errors, EOF at any point — mid-header, mid-frame), the socket
-   being polled on after errors and EOF: for every read-ahead factor >= 1 and every sequence of
-   caller buffer sizes (including empty buffers) the reader never panics (all slice indices in
-   bounds, no `expect` on a missing value), never reports an internal-state error, and the chunks it
-   delivers are consecutive pieces of the writer's byte stream starting at 0 — no loss,
-   duplication, reordering or foreign bytes; a chunk fits the buffer and is non-empty for a
-   non-empty buffer; every error is the carrier's (EOF / I/O error) or InvalidData. *)
+   Pending, zero-length reads, I/O errors of any kind, EOF at any point — mid-header, mid-frame),
+   the socket being polled on after errors and EOF: for every read-ahead factor >= 1 and every
+   sequence of caller buffer sizes (including empty buffers) the reader never panics (all slice
+   indices in bounds, no `expect` on a missing value), never reports an internal-state error, and
+   the chunks it delivers are consecutive pieces of the writer's byte stream starting at 0 — no
+   loss, duplication, reordering or foreign bytes; a chunk fits the buffer and is non-empty for a
+   non-empty buffer; every error is either the carrier's (its end of stream, or the I/O error of a
+   script entry passed through unchanged — the reader is then in ReadData and goes on where it
+   was) or the socket's own InvalidData, and then the reader has failed for good. *)
 Theorem C02_read_exact :
   forall e, wf_env e -> forall bufs sc,
-  pieces_ok 0 bufs (run_reader e bufs sc (reader_init (e_cfg e))).
+  pieces_ok 0 bufs sc (run_reader e bufs sc (reader_init (e_cfg e))).
 Proof. exact read_exact. Qed.
 Print Assumptions C02_read_exact.
 
 (* The same run with the full per-call judgement: after every call the invariant holds (buffer
    window, cursor on a frame boundary, index bounds); a carrier error or EOF leaves the reader in
-   ReadData with nothing lost (a later poll resumes exactly where the stream stopped); InvalidData
-   is only ever reported at an item that is not the acceptable next frame and leaves the reader in
-   the Failed state. *)
+   ReadData with nothing lost (a later poll resumes exactly where the stream stopped); the socket's
+   InvalidData is only ever reported at an item that is not the acceptable next frame and leaves
+   the reader in the Failed state. *)
 Theorem C02_read_invariant :
-  forall e, wf_env e -> forall bufs sc D r, Inv e D r -> run_ok e D bufs (run_reader e bufs sc r).
+  forall e, wf_env e -> forall bufs sc D r, Inv e D r -> run_ok e D bufs sc (run_reader e bufs sc r).
 Proof. exact run_ok_holds. Qed.
 Print Assumptions C02_read_invariant.
 
 (* One poll_read call preserves the invariant, from any state satisfying it. *)
 Theorem C02_poll_read_step :
   forall e b, wf_env e -> forall sc D r x r' sc',
-  Inv e D r -> poll_read e b sc r = (x, r', sc') -> res_ok e b D x r'.
+  Inv e D r -> poll_read e b sc r = (x, r', sc') -> res_ok e b D sc x r'.
 Proof. exact poll_inv. Qed.
 Print Assumptions C02_poll_read_step.
 
-(* Fail-stop: from any state whatsoever, once a poll has reported InvalidData every later poll
-   reports InvalidData — nothing is ever delivered after a protocol failure, and re-polling a
-   failed socket is answered without touching the buffers. *)
+(* Fail-stop: from any state whatsoever, once the reader has failed every later poll reports
+   InvalidData and leaves it failed — nothing is ever delivered after a protocol failure, and
+   re-polling a failed socket is answered without touching the buffers. *)
 Theorem C02_fail_stop :
-  forall e bufs sc r,
-  fail_stop (match r_state r with Failed => true | _ => false end) (run_reader e bufs sc r).
+  forall e bufs sc r, fail_stop (is_failed r) (run_reader e bufs sc r).
 Proof. exact reader_fail_stop. Qed.
 Print Assumptions C02_fail_stop.
 
@@ -51,14 +53,15 @@ Theorem C02_failed_repoll :
 Proof. exact poll_failed. Qed.
 Print Assumptions C02_failed_repoll.
 
-(* Untampered wire of frames with 1..MAX_FRAME_LEN plaintext bytes, any carrier behaviour:
-   InvalidData never; never more than was written; whenever the carrier reports EOF after the
-   whole wire was pulled, every byte has been delivered. *)
+(* Untampered wire of frames with 1..MAX_FRAME_LEN plaintext bytes, any carrier behaviour: the
+   reader never fails (an InvalidData can only be the carrier's own error); never more than was
+   written; whenever the carrier reports EOF after the whole wire was pulled, every byte has been
+   delivered. *)
 Theorem C02_read_honest :
   forall c plains, 1 <= c_factor c -> c_mfl c + TAG <= SNOW_MAX -> plains_ok c plains ->
   forall bufs sc,
   let tr := run_reader (honest_env c plains) bufs sc (reader_init c) in
-  pieces_ok 0 bufs tr /\ honest_ok (wire_len (honest plains)) (sum plains) 0 tr.
+  pieces_ok 0 bufs sc tr /\ honest_ok (wire_len (honest plains)) (sum plains) 0 tr.
 Proof. exact read_honest. Qed.
 Print Assumptions C02_read_honest.
 
@@ -72,6 +75,52 @@ Theorem C02_read_tamper :
 Proof. exact read_tamper. Qed.
 Print Assumptions C02_read_tamper.
 
+(* The same as a bound that needs no witness: whatever the wire, the plaintext delivered by any
+   run is at most the clean prefix of the wire — the frames of the longest prefix of items that
+   are, in order, the unmodified ciphertexts 0,1,2,.. with truthful headers and that the carrier
+   delivers completely (this is the bound the trace oracle applies). *)
+Theorem C02_read_clean_prefix :
+  forall e, wf_env e -> forall bufs sc,
+  delivered (run_reader e bufs sc (reader_init (e_cfg e))) <=
+  clean_prefix (e_items e) (e_plains e) 0 (e_avail e).
+Proof. exact read_clean_prefix. Qed.
+Print Assumptions C02_read_clean_prefix.
+
+(* Every LIST of manipulations of an honest wire (byte flips in header or body, drop, adjacent
+   and distant replay, adjacent and distant reordering, forged frames, bytes inserted into or
+   removed from a body, a frame of another session, truncation) gives an environment the reader
+   theorems speak about: their hypothesis wf_env is discharged. *)
+Theorem C02_tamper_wf :
+  forall c plains ts, 1 <= c_factor c -> c_mfl c + TAG <= SNOW_MAX -> plains_ok c plains ->
+  wf_env (env_of c plains ts).
+Proof. exact tamper_wf. Qed.
+Print Assumptions C02_tamper_wf.
+
+(* The receive nonce (r_ctr) only ever passes items that are the authentic frame of their index:
+   with the invariant, every item below the counter is genuine, truthfully framed and in place. *)
+Theorem C02_nonce_discipline :
+  forall e D r, wf_env e -> Inv2 e D r -> forall j, j < r_ctr r ->
+  exists it p, nthI (e_items e) j = Some it /\ nthP (e_plains e) j = Some p /\
+               i_hdr it = i_blen it /\ i_blen it = p + TAG /\ i_auth it = Some j.
+Proof. exact below_ctr. Qed.
+Print Assumptions C02_nonce_discipline.
+
+(* How the receive nonce advances: a poll_read decrypts at most one frame; the counter moves, by
+   exactly one, only in a call that returns bytes (errors, Pending and failed decryptions leave it
+   alone) — from any state. *)
+Theorem C02_nonce_step :
+  forall e b sc r x r' sc', poll_read e b sc r = (x, r', sc') ->
+  r_ctr r' = r_ctr r \/ (r_ctr r' = r_ctr r + 1 /\ exists n pos, x = RReady n pos).
+Proof. exact poll_ctr_step. Qed.
+Print Assumptions C02_nonce_step.
+
+(* A reader state that is in order stays in order when the network appends to the wire (data
+   arriving in several deliveries). *)
+Theorem C02_wire_grows :
+  forall e e' D r, wf_env e -> ext e e' -> Inv2 e D r -> Inv2 e' D r.
+Proof. exact inv2_ext. Qed.
+Print Assumptions C02_wire_grows.
+
 (* No lost wake-up on the read side: poll_read = Pending only if the last carrier call of that poll
    returned Pending (the carrier then holds the waker). *)
 Theorem C02_read_pending_has_waker :
@@ -79,28 +128,51 @@ Theorem C02_read_pending_has_waker :
 Proof. exact read_pending_has_waker. Qed.
 Print Assumptions C02_read_pending_has_waker.
 
+(* The read buffer at byte level: read_buffer[0 .. nread) holds the wire bytes from position
+   r_wbase on after every poll_read, whatever the carrier does (including the one-byte copy of
+   reset_read_state); hence the header bytes and the slice handed to the AEAD are the wire bytes
+   the model's oracle is asked about. *)
+Theorem C02_buffer_window :
+  forall e bufs sc r bf r' bf', Win bf r -> run_buf e bufs sc r bf = (r', bf') -> Win bf' r'.
+Proof. exact run_win. Qed.
+Print Assumptions C02_buffer_window.
+
+Theorem C02_buffer_window_step :
+  forall e b sc r bf x r' sc',
+  Win bf r -> poll_read e b sc r = (x, r', sc') -> Win (poll_read_buf e b sc r bf) r'.
+Proof. exact poll_read_win. Qed.
+Print Assumptions C02_buffer_window_step.
+
+Theorem C02_buffer_slice :
+  forall bf r fs, Win bf r -> r_offset r + fs <= r_nread r ->
+  forall i, i < fs -> bf (r_offset r + i) = Some (r_wbase r + r_offset r + i).
+Proof. exact window_slice. Qed.
+Print Assumptions C02_buffer_slice.
+
 (* Writer: for any sequence of poll_write / vectored poll_write / poll_flush / poll_close calls
-   and any behaviour of the carrier (partial acceptance, Pending, Ok(0), I/O errors, closed), the
-   socket being used on after errors: no call panics or fails with InvalidData, every frame carries
-   1..MAX_FRAME_LEN plaintext bytes, the frames' plaintext adds up to exactly the bytes the write
-   calls reported as accepted (an error or Pending accepts nothing), the bytes handed to the
-   carrier plus the bytes still buffered are exactly the frames' wire bytes, Pending is only
-   returned after the carrier returned Pending, and nothing reaches a closed carrier. *)
+   and any behaviour of the carrier (partial acceptance, Pending, Ok(0), I/O errors of any kind,
+   closed), the socket being used on after errors: no call panics; an error is always the
+   carrier's (BrokenPipe only once the caller closed it, WriteZero only for a zero-length
+   acceptance, otherwise the scripted kind unchanged) — the socket never fails by itself; every
+   frame carries 1..MAX_FRAME_LEN plaintext bytes, the frames' plaintext adds up to exactly the
+   bytes the write calls reported as accepted (an error or Pending accepts nothing), the bytes
+   handed to the carrier plus the bytes still buffered are exactly the frames' wire bytes, Pending
+   is only returned after the carrier returned Pending, and nothing reaches a closed carrier. *)
 Theorem C02_write_frames :
   forall c, 1 <= c_mfl c -> c_mfl c + TAG <= SNOW_MAX -> 1 <= c_wbuf c ->
   forall ops sc w tr wf ok, WInv c w -> run_writer c ops sc w = (tr, wf, ok) ->
   ok = true /\ WInv c wf /\ sum (w_frames wf) = sum (w_frames w) + accepted ops tr /\
-  wrun_ok ops tr /\ (w_cclosed w = true -> w_cclosed wf = true /\ w_sent wf = w_sent w).
+  wrun_ok ops sc (w_cclosed w) tr /\ (w_cclosed w = true -> w_cclosed wf = true /\ w_sent wf = w_sent w).
 Proof. exact run_writer_ok. Qed.
 Print Assumptions C02_write_frames.
 
 (* a single poll_write: accepts at most len bytes and frames exactly what it accepts; Pending
-   implies a registered waker; an error accepts nothing *)
+   implies a registered waker; an error accepts nothing and is the carrier's *)
 Theorem C02_poll_write_step :
   forall c len sc w x w' sc',
   1 <= c_mfl c -> c_mfl c + TAG <= SNOW_MAX -> 1 <= c_wbuf c ->
   WInv c w -> poll_write c len sc w = (x, w', sc') ->
-  wres_ok c len w x w' /\ w_cclosed w' = w_cclosed w.
+  wres_ok c len sc w x w' /\ w_cclosed w' = w_cclosed w /\ incl sc' sc.
 Proof. exact poll_write_ok. Qed.
 Print Assumptions C02_poll_write_step.
 
@@ -119,12 +191,20 @@ Theorem C02_write_empty :
 Proof. exact poll_write_empty. Qed.
 Print Assumptions C02_write_empty.
 
+(* the writer only ever appends frames and hands more bytes to the carrier (the sending nonce =
+   number of frames never goes back) *)
+Theorem C02_writer_monotone :
+  forall c ops sc w tr wf ok, run_writer c ops sc w = (tr, wf, ok) -> wmono w wf.
+Proof. exact run_writer_mono. Qed.
+Print Assumptions C02_writer_monotone.
+
 (* poll_flush = Ready: nothing is left in the encrypt buffer, every frame is with the carrier;
    Pending / error: frames unchanged, Pending has a waker *)
 Theorem C02_flush_complete :
   forall c sc w x w' sc', WInv c w -> poll_flush c sc w = (x, w', sc') ->
-  wres_ok c 0 w x w' /\ w_frames w' = w_frames w /\ w_cclosed w' = w_cclosed w /\
-  (forall n, x = WReady n -> n = 0 /\ w_state w' = WIdle /\ w_sent w' = frames_wire (w_frames w')).
+  wres_ok c 0 sc w x w' /\ w_frames w' = w_frames w /\ w_cclosed w' = w_cclosed w /\
+  (forall n, x = WReady n -> n = 0 /\ w_state w' = WIdle /\ w_sent w' = frames_wire (w_frames w')) /\
+  incl sc' sc.
 Proof. exact poll_flush_ok. Qed.
 Print Assumptions C02_flush_complete.
 
@@ -146,11 +226,12 @@ Print Assumptions C02_close_flushes.
    a complete flush *)
 Theorem C02_close_step :
   forall c sc w x w' sc', WInv c w -> poll_close c sc w = (x, w', sc') ->
-  wres_ok c 0 w x w' /\ w_frames w' = w_frames w /\
+  wres_ok c 0 sc w x w' /\ w_frames w' = w_frames w /\
   (w_cclosed w = true -> w_cclosed w' = true) /\
   (forall n, x = WReady n ->
      n = 0 /\ w_state w' = WIdle /\ w_sent w' = frames_wire (w_frames w') /\ w_cclosed w' = true) /\
-  (w_cclosed w' = true -> w_cclosed w = false -> exists n, x = WReady n).
+  (w_cclosed w' = true -> w_cclosed w = false -> exists n, x = WReady n) /\
+  incl sc' sc.
 Proof. exact poll_close_ok. Qed.
 Print Assumptions C02_close_step.
 
@@ -164,15 +245,93 @@ Theorem C02_end_to_end :
   let rt := run_reader (honest_env c plains) bufs rsc (reader_init c) in
   ok = true /\ sum plains = accepted ops tr /\
   (w_state w = WIdle -> sent_frames plains (w_sent w) = plains) /\
-  pieces_ok 0 bufs rt /\
+  pieces_ok 0 bufs rsc rt /\
   honest_ok (wire_len (honest plains)) (accepted ops tr) 0 rt.
 Proof. exact end_to_end. Qed.
 Print Assumptions C02_end_to_end.
 
-(* The constants of the source tree (regenerated on every run) satisfy the side conditions. *)
+(* One socket, both halves: a run that alternates between poll_read and the writer calls in any
+   order gives, half by half, exactly the results of running each half alone. *)
+Theorem C02_halves_independent :
+  forall c e ops rsc wsc r w recs r' w',
+  run_mixed c e ops rsc wsc r w = (recs, r', w', true) ->
+  rrecs_of recs = run_reader e (reads_of ops) rsc r /\
+  wrecs_of recs = fst (fst (run_writer c (wops_of ops) wsc w)) /\
+  w' = snd (fst (run_writer c (wops_of ops) wsc w)).
+Proof. exact mixed_split. Qed.
+Print Assumptions C02_halves_independent.
+
+(* One round of a connection (one side writes, the network delivers — possibly manipulated —
+   what reached the carrier, the other side reads while also using its own writer half), from any
+   state in which both directions are in order: no call panics, both directions are in order
+   again, the writer calls and the final flush are judged, what the network took over is exactly
+   the frames that reached the carrier completely (all frames, when the flush completed), the
+   records of the read phase are judged (consecutive chunks; in an untouched direction: the reader
+   never fails, never more than written, everything delivered by the time the carrier's end
+   follows the whole wire), and an untouched direction stays untouched. *)
+Theorem C02_duplex_round :
+  forall c rd F G tr F' G' ok,
+  1 <= c_factor c -> 1 <= c_mfl c -> c_mfl c + TAG <= SNOW_MAX -> 1 <= c_wbuf c ->
+  FInv c F -> FInv c G -> run_round c rd F G = (tr, F', G', ok) ->
+  ok = true /\ FInv c F' /\ FInv c G' /\ round_ok c rd F tr /\
+  f_D F' = f_D F + mdelivered (rt_mixed tr) /\ f_D G' = f_D G /\
+  f_plains F' = f_plains F ++ rt_new tr /\
+  (forall n, fst (rt_flush tr) = WReady n -> f_plains F' = w_frames (snd (rt_flush tr))) /\
+  (forall hon : bool, (hon = true -> Clean F /\ no_tamper (rd_tampers rd)) ->
+     mixed_ok hon (wire_len (f_items F')) (sum (f_plains F')) (f_D F) (rt_mixed tr)) /\
+  (Clean F -> no_tamper (rd_tampers rd) -> Clean F') /\ (Clean G -> Clean G').
+Proof. exact round_inv. Qed.
+Print Assumptions C02_duplex_round.
+
+(* A whole connection: any number of rounds in any directions with any calls, carrier
+   behaviours, manipulations and interleavings — no call on either socket ever panics and both
+   directions stay in order (so C02_duplex_round applies to every single round, by
+   C02_rounds_compose). *)
+Theorem C02_duplex_rounds :
+  forall c, 1 <= c_factor c -> 1 <= c_mfl c -> c_mfl c + TAG <= SNOW_MAX -> 1 <= c_wbuf c ->
+  forall rds F0 F1 trs A B ok, GInv c F0 F1 -> run_rounds c rds F0 F1 = (trs, A, B, ok) ->
+  ok = true /\ GInv c A B /\ length trs = length rds.
+Proof. exact rounds_inv. Qed.
+Print Assumptions C02_duplex_rounds.
+
+Theorem C02_rounds_compose :
+  forall c pre post F0 F1,
+  run_rounds c (pre ++ post) F0 F1 =
+  let '(t1, A, B, ok1) := run_rounds c pre F0 F1 in
+  if ok1 then let '(t2, A', B', ok2) := run_rounds c post A B in (t1 ++ t2, A', B', ok2)
+  else (t1, A, B, false).
+Proof. exact rounds_app. Qed.
+Print Assumptions C02_rounds_compose.
+
+(* From the start of a connection, in both directions: the plaintext delivered never exceeds the
+   clean prefix of what the network delivered. *)
+Theorem C02_connection :
+  forall c, 1 <= c_factor c -> 1 <= c_mfl c -> c_mfl c + TAG <= SNOW_MAX -> 1 <= c_wbuf c ->
+  forall rds trs A B ok, run_rounds c rds (flow_init c) (flow_init c) = (trs, A, B, ok) ->
+  ok = true /\ GInv c A B /\
+  f_D A <= clean_prefix (f_items A) (f_plains A) 0 (f_avail A) /\
+  f_D B <= clean_prefix (f_items B) (f_plains B) 0 (f_avail B).
+Proof. exact connection_bound. Qed.
+Print Assumptions C02_connection.
+
+(* The error-kind tables (regenerated on every run): the table of io::ErrorKinds the harness's
+   carrier draws from is the one the model passes through unchanged, and the kinds the source's
+   poll_read / poll_write / poll_flush produce themselves are exactly the model's. *)
+Theorem C02_error_kinds :
+  (V.gen.NoiseKinds.noise_kind_codes = table_codes /\
+   forallb (fun k => ecode k =? k) V.gen.NoiseKinds.noise_kind_codes = true) /\
+  V.gen.NoiseKinds.noise_read_kinds = [E_EOF; E_INVALID; E_PERM] /\
+  V.gen.NoiseKinds.noise_write_kinds = [E_INVALID; E_WRITEZERO].
+Proof. exact (conj kinds_table (conj own_read_kinds own_write_kinds)). Qed.
+Print Assumptions C02_error_kinds.
+
+(* The constants of the source tree (regenerated on every run) satisfy the side conditions, and
+   so do the defaults of the two transport configurations. *)
 Theorem C02_constants :
   1 <= V.gen.Consts.MAX_FRAME_LEN /\ V.gen.Consts.MAX_FRAME_LEN + TAG <= SNOW_MAX /\
-  1 <= V.gen.Consts.MAX_READ_AHEAD_FACTOR /\ 1 <= V.gen.Consts.MAX_WRITE_BUFFER_SIZE.
+  1 <= V.gen.Consts.MAX_READ_AHEAD_FACTOR /\ 1 <= V.gen.Consts.MAX_WRITE_BUFFER_SIZE /\
+  1 <= V.gen.Consts.TCP_NOISE_READ_AHEAD_DEFAULT /\ 1 <= V.gen.Consts.TCP_NOISE_WRITE_BUFFER_DEFAULT /\
+  1 <= V.gen.Consts.WS_NOISE_READ_AHEAD_DEFAULT /\ 1 <= V.gen.Consts.WS_NOISE_WRITE_BUFFER_DEFAULT.
 Proof. exact consts_ok. Qed.
 Print Assumptions C02_constants.
 
@@ -188,7 +347,9 @@ Print Assumptions C02_unfixed_refuted.
 
 (* non-vacuity: a 3-frame transfer through a stuttering carrier (Pending, I/O error, zero-length
    read) with a 1-byte carry-over; a body flip of frame 1 that stops the reader after frame 0 and
-   keeps it failed; a close that flushes a partially written buffer *)
+   keeps it failed; a carrier that itself reports InvalidData does not make the reader fail; a
+   close that flushes a partially written buffer; a two-round duplex connection whose second
+   delivery replays the first frame at a distance *)
 Example C02_nonvacuous :
   let c := mkCfg 1 1 V.gen.Consts.MAX_FRAME_LEN in
   let plains := [5; 70000 - 65519; 1] in
@@ -196,16 +357,25 @@ Example C02_nonvacuous :
                        [3; 4; 0; SPECIAL + 6; 1; SPECIAL; 1; 1; 1000000; 1000000; 1000000] (reader_init c) in
   map fst tr = [RPending; RErr 6; RErr E_EOF; RReady 5 0; RReady 2 5; RReady 4479 7; RReady 1 4486;
                 RErr E_EOF; RErr E_EOF] /\
-  let e := env_of c plains (TFlip 1 9 255) in
+  let e := env_of c plains [TFlip 1 9 255] in
   not_auth e 1 /\
   map fst (run_reader e [100; 100; 100; 100] [1000000; 1000000] (reader_init c)) =
     [RReady 5 0; RErr E_INVALID; RErr E_INVALID; RErr E_INVALID] /\
-  let '(tr, w, _) := run_writer c [OWrite 10; OWriteV [0; 7; 3]; OClose; OClose; OWrite 4; OFlush]
+  map fst (run_reader (honest_env c plains) [100; 100; 100] [SPECIAL + 2; 1000000] (reader_init c)) =
+    [RErr E_INVALID; RReady 5 0; RReady 100 5] /\
+  (let '(tr, w, _) := run_writer c [OWrite 10; OWriteV [0; 7; 3]; OClose; OClose; OWrite 4; OFlush]
                                 [0; 5; 0; 1000; 1000] writer_init in
-  map fst tr = [WReady 10; WReady 7; WPending; WReady 0; WReady 4; WErr E_BROKENPIPE] /\
-  w_sent w = frames_wire [10; 7] /\ w_cclosed w = true.
+   map fst tr = [WReady 10; WReady 7; WPending; WReady 0; WReady 4; WErr E_BROKENPIPE] /\
+   w_sent w = frames_wire [10; 7] /\ w_cclosed w = true) /\
+  let '(trs, A, B, ok) :=
+    run_rounds c [mkRound false [OWrite 3; OWrite 4] [] [] [SR 100; SW (OWrite 9); SR 100; SR 100] [1000000] [];
+                  mkRound true [] [] [] [SR 100; SR 100] [1000000] [];
+                  mkRound false [OWrite 2] [] [TCopy 0 1] [SR 100; SR 100; SR 100] [1000000] []]
+               (flow_init c) (flow_init c) in
+  ok = true /\ f_D A = 9 /\ f_D B = 9 /\ is_failed (f_r A) = true /\ is_failed (f_r B) = false /\
+  clean_prefix (f_items A) (f_plains A) 0 (f_avail A) = 9.
 Proof.
-  vm_compute. split; [reflexivity|]. split; [|split; [reflexivity|]].
+  vm_compute. split; [reflexivity|]. split; [|split; [reflexivity|split; [reflexivity|]]].
   - intros it [= <-]. reflexivity.
-  - repeat split.
+  - split; [repeat split|]. repeat split.
 Qed.
